@@ -53,6 +53,9 @@ def gen_cases(E, ctx):
     if 'bwide' in E.BC:
         for i in range(4 if not ctx.thorough else 40):
             cases.append(E.make_wide_case(rng, count=rng.choice([100, 130, 200])))
+        # many distinct vtables of many lengths clustered at the back of the buffer, through flatcc's DEFAULT emitter (back pages)
+        for i in range(10 if not ctx.thorough else 100):
+            cases.append(E.make_wide_case(rng, count=rng.choice([100, 150, 200, 300, 400]), many_vtables=True))
     return cases
 
 
@@ -88,6 +91,14 @@ def check_case_oracles(E, ctx, cases):
         rej = [x for x in lst if x[1] and not x[3].startswith('0 ')]
         base = {'harness_line': c.h, 'model_line': c.m, 'schema': c.schema.name, 'root': c.root, 'opts': str(c.opts),
                 'buffer_hex': c.himpl['bytes'], 'dec_line': line, 'reported_alignment': c.himpl['align']}
+        idt, hp, raw = c.opts['ident'], 4 if c.opts['with_size'] else 0, raw_of(c)
+        if idt and any(idt) and raw[hp + 4:hp + 8] != idt:
+            # header check independent of model and verifier: the identifier the buffer was finished with is stored after the root offset
+            flagged.add(id(c))
+            ctx.violation('identifier-not-stored:' + kind,
+                          'the buffer was finished with identifier %s (4 bytes, not a string: zero bytes are legitimate in type hashes) but bytes %d..%d of the finished '
+                          'buffer are %s' % (idt.hex(), hp + 4, hp + 8, raw[hp + 4:hp + 8].hex()), dict(base, verify_line=rej[0][0]) if rej else base)
+            continue
         lost = bu.embed_header_lost(c.schema, c.node, raw_of(c), 4 if c.opts['with_size'] else 0)
         if lost:
             flagged.add(id(c))
@@ -182,6 +193,11 @@ def run(ctx):
     E.run_builds(cases)
     compare_builds(E, ctx, cases)
     E.embed_no_parent(rng, 12 if not ctx.thorough else 120)        # embed_buffer with no buffer open: plain emission, no size field header
+    # tables within a few bytes of / exactly at / one field beyond / far beyond the 64 KB a vtable can describe: fit -> built and decoded, else refused
+    nt, nbad = E.table_size_limit(rng, 26 if not ctx.thorough else 400)
+    # alignment arguments above the 512 byte padding block (outside the documented 1..256): own harness process per script, one key
+    na, nhit = E.align_above_512(rng, 16 if not ctx.thorough else 160)
+    ctx.log('table-size-limit: %d scripts (%d too large and not refused); align-above-512: %d scripts (%d over-reads)' % (nt, nbad, na, nhit))
     flagged = check_case_oracles(E, ctx, cases)
     # model / implementation disagreements that the oracles did not already explain
     explained = False
